@@ -17,11 +17,12 @@ nothing is rewritten, or the visit ran on a deep copy).  Branch by branch:
   * null: accepted at once by a nullable schema; otherwise a comb asks its branches (and accepts without looking
     at its own keywords), every other node rejects;
   * obj, on an object: FIRST the defaults (only when `DefaultsSet` is installed, i.e. SkipSettingDefaults is off):
-    a property that is absent — or present with value null (`value[propName] == nil`) — and whose schema has a
-    non-null default gets it, unless the property is readOnly (and read-only validation is on); a readOnly
-    property whose key is present (null included) is an error; THEN unknown keys need `additionalProperties`, every
-    present property is visited with its schema (the injected defaults too), and `required` wants the key to be
-    present (or the property to be readOnly);
+    a property whose key is ABSENT (`_, present := value[propName]; !present` — the repaired code, commit c740938:
+    a member that is present with the value null is present) and whose schema has a non-null default gets it,
+    unless the property is readOnly (and read-only validation is on); a readOnly property whose key is present
+    (null included) is an error; THEN unknown keys need `additionalProperties`, every present property is visited
+    with its schema (the injected defaults too; an explicit null is visited as null: a non-nullable property schema
+    rejects it), and `required` wants the key to be present (or the property to be readOnly);
   * arr: every item is visited;
   * anyOf: the first branch that accepts a deep copy is run again on the value — value semantics: its result;
     oneOf: exactly one branch must accept a copy, then that one is run on the value; allOf: all branches run on the
@@ -82,7 +83,6 @@ def S.attr : S → Attr
 structure Ctx where
   setDefaults : Bool := true      -- `DefaultsSet` installed (Options.SkipSettingDefaults is off)
   roDisabled : Bool := false      -- Options.ExcludeReadOnlyValidations
-  nullIsAbsent : Bool := true     -- the code's `value[propName] == nil` (true) vs. the property's "absent" (false)
   deriving Repr
 
 def lookup (k : String) : List (String × α) → Option α
@@ -103,10 +103,10 @@ def leafOK : Ty → J → Bool
 /-- `reqRO` of visitJSONObject -/
 def reqRO (c : Ctx) (a : Attr) : Bool := a.readOnly && !c.roDisabled
 
-/-- does the property slot count as empty for default injection? -/
-def slotEmpty (c : Ctx) : Option J → Bool
+/-- does the property slot count as empty for default injection?  Only when the key is absent
+    (`_, present := value[propName]; !present`); an explicit null is a present member. -/
+def slotEmpty : Option J → Bool
   | none => true
-  | some .null => c.nullIsAbsent
   | some _ => false
 
 /-- the default a property receives, if any (a JSON `null` default is a nil `Default`: none) -/
@@ -117,7 +117,7 @@ def dfltFor (c : Ctx) (a : Attr) : Option J :=
 
 /-- one turn of the default-injection loop: property `k` with attributes `a` -/
 def injectStep (c : Ctx) (k : String) (a : Attr) (kvs : List (String × J)) : List (String × J) :=
-  if slotEmpty c (lookup k kvs) then (match dfltFor c a with | some d => setKey k d kvs | none => kvs) else kvs
+  if slotEmpty (lookup k kvs) then (match dfltFor c a with | some d => setKey k d kvs | none => kvs) else kvs
 
 /-- the default-injection loop at the head of visitJSONObject -/
 def injectDefaults (c : Ctx) : List (String × S) → List (String × J) → List (String × J)
@@ -206,20 +206,6 @@ def accepts (c : Ctx) (s : S) (v : J) : Bool := (visit c s v).isSome
 /-! ### what the exclusion classes and the spec speak about -/
 
 mutual
-/-- some object member, at any depth, is an explicit `null` -/
-def hasNullProp : J → Bool
-  | .arr xs => hasNullPropList xs
-  | .obj kvs => hasNullPropKvs kvs
-  | _ => false
-def hasNullPropList : List J → Bool
-  | [] => false
-  | x :: xs => hasNullProp x || hasNullPropList xs
-def hasNullPropKvs : List (String × J) → Bool
-  | [] => false
-  | (_, x) :: r => x.isNull || hasNullProp x || hasNullPropKvs r
-end
-
-mutual
 /-- the schema contains an allOf/oneOf/anyOf node -/
 def hasComb : S → Bool
   | .leaf _ _ => false
@@ -250,26 +236,59 @@ def wfList : List S → Bool
   | s :: r => wf s && wfList r
 end
 
-/-- the default of a node, if any, has no null members -/
-def attrClean (a : Attr) : Bool := match a.dflt with | some d => !hasNullProp d | none => true
+/-! ### Spec (from the property text)
+
+"Each absent body property that has a schema default appears in the forwarded request with that default and nothing
+else changes … Defaults from a oneOf/anyOf branch that did not match are never applied."  Read as a function: an
+object is forwarded with its received members, followed by ONE new member for each property that is absent and has an
+applicable default (no loop, no overwriting); the members are then forwarded by their own property schemas; arrays
+item by item; `anyOf` forwards what its first accepting branch forwards, `oneOf` what its only accepting branch
+forwards, `allOf` what its members forward one after the other.  Written independently of `injectDefaults`/`setKey`. -/
+
+/-- one new member for each ABSENT property with an applicable default, in the order of the properties -/
+def absentDefaults (c : Ctx) : List (String × S) → List (String × J) → List (String × J)
+  | [], _ => []
+  | (k, s) :: ps, kvs =>
+    match lookup k kvs, dfltFor c s.attr with
+    | none, some d => (k, d) :: absentDefaults c ps kvs
+    | _, _ => absentDefaults c ps kvs
+
+def specDefaulted (c : Ctx) (props : List (String × S)) (kvs : List (String × J)) : List (String × J) :=
+  if c.setDefaults then kvs ++ absentDefaults c props kvs else kvs
+
+def specObjPre (c : Ctx) (req : List String) (props : List (String × S)) (addl : Bool) (kvs : List (String × J)) :
+    Option (List (String × J)) :=
+  if objChecks c req props addl (specDefaulted c props kvs) then some (specDefaulted c props kvs) else none
 
 mutual
-/-- no default anywhere in the schema contains an explicit null member -/
-def cleanDefaults : S → Bool
-  | .leaf a _ => attrClean a
-  | .obj a _ props _ => attrClean a && cleanProps props
-  | .arr a items => attrClean a && cleanDefaults items
-  | .comb a _ bs => attrClean a && cleanList bs
-def cleanProps : List (String × S) → Bool
-  | [] => true
-  | (_, s) :: r => cleanDefaults s && cleanProps r
-def cleanList : List S → Bool
-  | [] => true
-  | s :: r => cleanDefaults s && cleanList r
+def specVisit (c : Ctx) : S → J → Option J
+  | .leaf a ty, v =>
+    if v.isNull then (if a.nullable then some v else none)
+    else if leafOK ty v then some v else none
+  | .obj a req props addl, v =>
+    match v with
+    | .null => if a.nullable then some .null else none
+    | .obj kvs => (specObjPre c req props addl kvs).bind (fun kvs1 => (specVisitProps c props kvs1).map J.obj)
+    | _ => none
+  | .arr a items, v =>
+    match v with
+    | .null => if a.nullable then some .null else none
+    | .arr xs => (mapOpt (fun x => specVisit c items x) xs).map J.arr
+    | _ => none
+  | .comb a k bs, v => combRes a k bs.isEmpty v (specVisitAll c bs v) (specVisitMatches c bs v)
+def specVisitProps (c : Ctx) : List (String × S) → List (String × J) → Option (List (String × J))
+  | [], kvs => some kvs
+  | (k, s) :: ps, kvs =>
+    match lookup k kvs with
+    | none => specVisitProps c ps kvs
+    | some x => (specVisit c s x).bind (fun x' => specVisitProps c ps (setKey k x' kvs))
+def specVisitMatches (c : Ctx) : List S → J → List J
+  | [], _ => []
+  | b :: bs, v => (specVisit c b v).toList ++ specVisitMatches c bs v
+def specVisitAll (c : Ctx) : List S → J → Option J
+  | [], v => some v
+  | b :: bs, v => (specVisit c b v).bind (fun v' => specVisitAll c bs v')
 end
-
-/-- the property's reading: only ABSENT properties receive defaults -/
-def specCtx (c : Ctx) : Ctx := { c with nullIsAbsent := false }
 
 /-- finding #37: with compositions in the schema, validating the forwarded value again gives something else -/
 def BranchShift (c : Ctx) (s : S) (v : J) : Bool :=
